@@ -45,10 +45,10 @@ start = s.index("## 13. Seeded changes and which checks catch them")
 end = s.index("## Appendix A")
 intro = '''## 13. Seeded changes and which checks catch them
 
-Eleven rounds of independent sub-agents (one per claimed property and round)
+Fourteen rounds of independent sub-agents (one per claimed property and round)
 were given only the text of one property and a private scratch worktree, and
 asked for two changes each that break the property, keep the pinned suite green
-and need something specific to manifest; rounds two to eleven were steered
+and need something specific to manifest; rounds two to fourteen were steered
 towards state left by earlier calls, failures at interior points, unspecified
 behaviour of dependencies and cooperating edits, and were told which ideas were
 already taken (variants A/B = round 1, C/D = round 2, E/F = round 3,
@@ -60,7 +60,7 @@ same objects, unusual argument types, interacting keywords and resources;
 O/P = round 8, pointed at numerical edge semantics, inner-axis shapes, text
 format interplay and ordering of validation and side effects; Q/R = round 9,
 asked to find clauses and parts of the quantified domain no earlier idea had
-touched; S/T and U/V = rounds 10 and 11, the same with a time limit). Every change was confirmed by
+touched; S/T, U/V, W/X, Y/Z and AA/AB = rounds 10 to 14, the same with a time limit). Every change was confirmed by
 `tools/confirm_seeds.sh` in a scratch worktree (patch applies; no newly
 failing test; the agent's demo fails with the change and passes without) before
 it was filed under `/verif/seeded/<id>/` (`patch.diff`, `demo.py`, `notes.md`
@@ -220,6 +220,72 @@ arrays; C11-U to pairs that sit between the two readings of numpy's asymmetric
 closeness test; C12-U/V to `variable`/`symbols` asked for again after the
 caller wrote into the first result and to an empty mapping; C07-U to accessor
 results scribbled over before the comparison.
+Round twelve (8 of 22 missed at first; W/X): C13-X (the header of a path read
+through `linecache`, which never looks at the file again) to *the same path
+written a second and a third time* - another polynomial, then a plain table -
+with a load after each; it also showed that FileSeam's self-probe insisted on
+seeing numpoly's own header peek through the router and so ended in a harness
+error (exit 2) on that change instead of a verdict - the probe now requires
+numpy's opens only; C13-W (integers read through float64 and cast back) to
+`fmt="%d"` files with coefficients beyond 2**53 loaded with an integer `dtype`;
+C12-X to data arriving as a raw structured array whose fields differ in type;
+C17-W (a 0-d polynomial exponent shifted to zero in place) to exponents given
+as constant polynomials, 0-d arrays and whole arrays of powers for a 0-d base;
+C17-X was caught by catalogue entries for `remove_redundant_coefficients` /
+`remove_redundant_names` added an hour earlier for exactly that gap (the
+representation cleaners take bare exponent matrices and coefficient lists);
+C18-X (the basis built through the option-obeying constructor) to `monomial`
+asked for inside a block with other clean-up/sort options; C19-W (ranking on
+float64 copies of the coefficients) to integer coefficients beyond 2**53 that
+differ by one; C20-W (all-zero padding blocks never written for narrower
+coefficient types) to journeys with int32/int16 coefficients under HeapSeam's
+fill patterns; C20-X (a wrong inverse permutation) to `p ** [3, 1, 2]`;
+C15-X (`minimum` ordered by the display options) to `minimum` and the
+operators `<=`, `>`, `>=` in the twin programs (only `maximum` and `<` were
+there).
+Round thirteen (6 of 20 missed at first; Y/Z; no round for C15): C13-Z
+(`savetxt` writing paths through a handle of its own and swallowing a failing
+`close`) ended in a harness error again, for the same reason as C13-X: the path
+router was installed in numpy's modules and in `numpoly.array_function.loadtxt`
+only - it is now the `open` of every numpoly module, so whichever module opens
+a file meets the simulated disk, and the close fault then shows the
+acknowledged-but-unreadable save; C13-Y (pickle state carrying the scalar type
+instead of the dtype) to coefficients in the other byte order in the pickle and
+copy steps; C12-Z (dictionary terms promoted to one common type before the
+cast) to dictionaries of differently typed arrays with an int64 beyond 2**53
+and a requested integer dtype; C14-Z (name check skipped for a complete table)
+to an unknown name arriving together with a value for every known option;
+C16-Y (unit shortcut by `isclose`) to coefficients a hair away from +1/-1;
+C20-Z (differentiation columns resolved once, before the loop) to directed
+journeys - names stored out of order, `retain_names=False`, two differentiation
+variables, the first of which disappears from every term - which promptly
+reported a violation on the *unchanged* tree as well: a genuine defect
+(positional indices, §10), repaired; C20-V and C20-Z were re-created on the
+repaired HEAD.
+Round fourteen (a short one: six properties, twelve changes, AA/AB; 6 missed
+at first, 1 still is): C07-AA/AB (a `global_options` block without
+`try/finally`; a refused `set_options` that had already applied its valid
+keys) are C14 mechanisms seen through C07's eyes - every comparison in the C07
+check *selected* its sort order and so never looked at what earlier failures
+had left behind; the order is now also used *as found* after a block left by
+an exception and a refused update; C16-AB (`abs()` of the most negative
+integer) to the lowest value of every signed type among the printed
+coefficients, C12-AA (the same wrap-around in the redundancy test of
+`clean.py`) to a construction route whose only non-zero coefficients are that
+value; C18-AB (keys truncated to integers) to fractional `glexsort` keys - my
+first version of that generator raised a false alarm on the unchanged tree
+within the minute, because the reference converted the keys to `int` before
+sorting them; the reference now keeps them as they are. Extending the list of
+C12 construction routes shifted the seeded choice of the others, and C12-Z was
+no longer reached at seed 0; the mixed-dictionary route was given a bias
+towards the 64-bit cases it exists for, and all C12 and C15 changes were run
+again afterwards. **Not detected: C12-AB** (`repeat` rebuilt from
+`coefficients`, which is `[]` for an array without elements, so that
+`repeat(empty, 2)` returns an uninitialised 0-d polynomial): the C12 workload
+has no operands without elements, because on the unchanged tree most
+operations on such operands already misbehave in exactly this way (known
+finding 3, §10), and a workload that reaches this change would report those as
+well; it is listed in the table with own check exit 0.
 
 '''
 s = s[:start] + intro + table + "\n\n---------------------------------------------------------------------------\n\n" + s[end:]
